@@ -114,7 +114,8 @@ Qed.
 (* ---- C07 routes ---- *)
 Definition on_route_b (s : Sim) (v : Vehicle) : bool :=
   match v_state v with
-  | Repositioning r | ServicingTrip _ _ r => match walk (v_geoid v) r with Some _ => true | None => false end
+  | Repositioning r => match walk (v_geoid v) r with Some _ => true | None => false end
+  | ServicingTrip q _ r => match walk (v_geoid v) r with Some h => Pos.eqb h (p_geoid (r_dest q)) | None => false end
   | DispatchTrip rid r =>
       match walk (v_geoid v) r with
       | Some h => match find rid (requests s) with
@@ -133,7 +134,7 @@ Proof.
   - destruct (walk (v_geoid v) route); [eauto|discriminate].
   - destruct (walk (v_geoid v) route) as [h|]; [|discriminate]. intro H. exists h. split; [reflexivity|]. intros q F D. rewrite F in H.
     rewrite (proj2 (opt_pos_eqb_eq _ _) D) in H. apply Pos.eqb_eq in H. exact H.
-  - destruct (walk (v_geoid v) route); [eauto|discriminate].
+  - destruct (walk (v_geoid v) route) as [h|]; [|discriminate]. intro H. apply Pos.eqb_eq in H. congruence.
   - destruct (walk (v_geoid v) route) as [h|]; [|discriminate]. destruct (find sid (stations s)) as [x|]; [|discriminate].
     intro H. apply Pos.eqb_eq in H. eauto.
   - destruct (walk (v_geoid v) route) as [h|]; [|discriminate]. destruct (find bid (bases s)) as [b|]; [|discriminate].
